@@ -409,10 +409,17 @@ fn json_kinds() -> Vec<Value> {
         json!({"content": "AA=", "contentType": "base64"}),
         json!({"content": 7, "contentType": "hex"}),
         json!({"contentType": "hex"}),
+        json!({"content": "a€", "contentType": "hex"}),
+        json!({"content": "€", "contentType": "hex"}),
+        json!({"content": "é=", "contentType": "base64"}),
+        json!("€"),
+        json!("1é"),
+        json!("0€ff"),
     ]
 }
 
-const EDIT_CHARS: [char; 7] = ['g', 'x', '0', '#', '-', ' ', '"'];
+// the last three are 2, 3 and 4 bytes wide: a decoder that cuts its input at byte offsets meets them at every position
+const EDIT_CHARS: [char; 10] = ['g', 'x', '0', '#', '-', ' ', '"', 'é', '€', '😀'];
 
 fn single_edits(s: &str) -> Vec<String> {
     let chars: Vec<char> = s.chars().collect();
@@ -497,7 +504,12 @@ fn judge_request(nparams: usize, split: u32, extras: bool, corruption: usize, o:
         8 => (json!(hexed), json!("hex"), json!(""), false),
         9 => (json!(hexed[..hexed.len() / 2 * 2 - 2].to_string()), json!("hex"), json!("v1beta0"), false),
         10 => (json!(""), json!("hex"), json!("v1beta0"), false),
-        _ => (json!(hex_enc(&[0x81; 600], false)), json!("hex"), json!("v1beta0"), false),
+        11 => (json!(hex_enc(&[0x81; 600], false)), json!("hex"), json!("v1beta0"), false),
+        12 => (json!("a€"), json!("hex"), json!("v1beta0"), false),
+        13 => (json!("€"), json!("hex"), json!("v1beta0"), false),
+        14 => (json!(format!("0é{hexed}")), json!("hex"), json!("v1beta0"), false),
+        15 => (json!("😀ff"), json!("base64"), json!("v1beta0"), false),
+        _ => (json!(format!("{}é", &hexed[..hexed.len() - 1])), json!("hex"), json!("v1beta0"), false),
     };
     let doc = json!({"tir": {"content": content, "encoding": encoding, "version": version}, "args": args, "env": if split == 0 && !extras { Value::Null } else { Value::Object(env.clone()) }});
     o.evals += 1;
@@ -542,6 +554,68 @@ fn judge_request(nparams: usize, split: u32, extras: bool, corruption: usize, o:
     }
 }
 
+/// A request for a template that holds one value parameter in some position of some block (every one-level IR
+/// context x every placement): the parameters the template holds are found by an independent walk of its structure,
+/// each is supplied, and the argument map handed over must name exactly those.
+fn judge_request_position(placement: usize, inner: Option<usize>, o: &mut Outcome) {
+    use crate::gen::tirgen::{self, Probe, TreeId};
+    let id = TreeId { outer: None, inner, probe: Probe::Value, placement };
+    let tx = tirgen::build_tree(&id);
+    let held = crate::common::canon::unresolved_tx(&tx).values;
+    if held.is_empty() {
+        o.class("position:no-parameter");
+        return;
+    }
+    // types: what the walk cannot tell is taken from the generator (the probe's type is the hole's)
+    let reported = tx3_tir::reduce::find_params(&tx);
+    let mut args = serde_json::Map::new();
+    for name in held.iter() {
+        let v = match reported.get(name) {
+            Some(Type::Int) | None => json!(7),
+            Some(Type::Bool) => json!(true),
+            Some(Type::UtxoRef) => json!(format!("{}#1", hex_enc(&[7u8; 32], false))),
+            Some(Type::Address) => json!(hex_enc(&base_address(5, 0), false)),
+            Some(_) => json!("abcd"),
+        };
+        args.insert(name.clone(), v);
+    }
+    let (bytes, _) = tx3_tir::encoding::to_bytes(&tx);
+    let doc = json!({"tir": {"content": hex_enc(&bytes, false), "encoding": "hex", "version": "v1beta0"}, "args": args});
+    o.evals += 1;
+    let Ok(req) = serde_json::from_value::<ResolveParams>(doc.clone()) else {
+        o.class("position:not-a-request-document");
+        return;
+    };
+    let desc = tirgen::describe(&id);
+    match panics::catch(|| parse_resolve_request(req).map(|(_, a)| a.keys().cloned().collect::<Vec<_>>()).map_err(|e| e.to_string())) {
+        Err(p) => {
+            o.class("position:panic");
+            o.violate(Violation::new(format!("request-{}", p.signature()), format!("parse_resolve_request panicked for {desc}: {}", p.message)).with_detail(doc));
+        }
+        Ok(Err(e)) => {
+            // a value of the wrong shape for an ill-typed tree is refused: not this check's matter
+            o.class("position:refused");
+            let _ = e;
+        }
+        Ok(Ok(mut got)) => {
+            got.sort();
+            if got == held {
+                o.class("position:parameters-handed-over");
+            } else {
+                o.class("position:parameters-lost");
+                let ctx = desc.split("in:").nth(1).unwrap_or(&desc).to_string();
+                o.violate(
+                    Violation::new(
+                        format!("request|supplied-parameter-not-handed-over|{}", crate::engine::first_line(&ctx, 60)),
+                        format!("{desc}: the template holds {held:?}, all were supplied, the argument map names {got:?}"),
+                    )
+                    .with_detail(doc),
+                );
+            }
+        }
+    }
+}
+
 impl Prop for C16 {
     fn id(&self) -> &'static str {
         "C16"
@@ -550,8 +624,9 @@ impl Prop for C16 {
         "inversion: every boundary integer as JSON number / decimal string / 0x + 32 hex digits (lower and upper case), all 6 boolean spellings, byte \
          strings of every length 0..33 (thorough 40) as hex / 0xhex / hex envelope / base64 envelope (with the alias keys), 6 addresses as bech32 and \
          hex, utxo refs with txid length {1,32} x index {0,1,2^32-1}; rejection: every single-character edit (delete, insert / substitute one of \
-         g x 0 # - space \") at every position of every valid string encoding, and 36 JSON values of every kind, each against all 5 types; \
-         requests: 0..3 declared parameters x all 2^n splits between args and env x undeclared extras x 12 envelope variants. Oracle: a strict \
+         g x 0 # - space \" and the 2-, 3- and 4-byte characters é € 😀) at every position of every valid string encoding, and 42 JSON values of every kind, each against all 5 types; \
+         requests: 0..3 declared parameters x all 2^n splits between args and env x undeclared extras x 17 envelope variants (5 with multi-byte content); \
+         a request for every template that holds one value parameter in one position (every one-level IR context x 19 placements; the parameters held are found by an independent structural walk). Oracle: a strict \
          decoder written from the documented encodings (own hex, base64, bech32): from_json returns Ok(v) iff the text denotes v; requests yield \
          exactly the declared subset. Non-trivial = from_json / parse_resolve_request was executed and compared; distinct = (json text, type)."
             .into()
@@ -574,6 +649,9 @@ impl Prop for C16 {
             if let Some(text) = v.as_str() {
                 sink.case(|| json!({"kind": "edits", "type": type_name(ty), "text": text}));
             }
+        }
+        for placement in 0..crate::gen::tirgen::PLACEMENTS.len() {
+            sink.case(|| json!({"kind": "request-positions", "placement": placement}));
         }
         for n in 0..=3usize {
             for split in 0..(1u32 << n) {
@@ -621,11 +699,19 @@ impl Prop for C16 {
                     o.key(hash64(&(e, type_name(ty))));
                 }
             }
+            "request-positions" => {
+                let placement = case["placement"].as_u64().unwrap_or(0) as usize;
+                judge_request_position(placement, None, &mut o);
+                for inner in 0..crate::gen::tirgen::contexts().len() {
+                    judge_request_position(placement, Some(inner), &mut o);
+                }
+                o.key(hash64(&("positions", placement)));
+            }
             "requests" => {
                 let n = case["params"].as_u64().unwrap_or(0) as usize;
                 let split = case["split"].as_u64().unwrap_or(0) as u32;
                 let extras = case["extras"].as_bool().unwrap_or(false);
-                for corruption in 0..12 {
+                for corruption in 0..17 {
                     judge_request(n, split, extras, corruption, &mut o);
                     o.key(hash64(&(n, split, extras, corruption)));
                 }
